@@ -435,6 +435,45 @@ def analyse(sc, r, variant, tier, stats, only_k=None):
     return viol, diffs
 
 
+def leftover_worlds(sc, seed, tier, stats):
+    """working files left by an interrupted run of an OLDER source version (larger, every byte non-zero) next to their
+    destinations: one uninterrupted run must end with every source file byte-identical in the destination and no working
+    file left -- for each transfer path that goes through a working file (block delta, change-ratio fallback, sparse source)"""
+    viol = []
+    n = 2 if tier == "quick" else 10
+    for i in range(n):
+        r = vlib.rng_for(seed, "C09-left%d" % i)
+        base = os.path.join(sc.dir, "left%d" % i)
+        src, tpl, fl = make_world(base, r, i)
+        fl = dict(fl); fl.pop("delete", None); fl.pop("force", None); fl.pop("thr", None)
+        ssnap = world.snapshot(src)
+        import c05
+        planted = []
+        for rel in ("big_sparse.img", "big_delta.bin", "big_fb.bin", "shrunk.log"):
+            tn = c05.model_temp_name([os.path.basename(rel).encode()])[0].decode()
+            tp = os.path.join(tpl, os.path.dirname(rel), tn)
+            with open(tp, "wb") as f:
+                f.write(b"\xee" * (ssnap[rel]["size"] + 50000 + r.randrange(0, 5000)))
+            planted.append(os.path.relpath(tp, tpl))
+        dst = base + "/dst"
+        fresh(tpl, dst)
+        env = dict(os.environ); env.update(sc.env); env["SY_VERIF_DELTA_THRESHOLD"] = str(ew.BIG)
+        p = subprocess.run([world.SY, src, dst] + ew.cli_of(fl), env=env, cwd=sc.dir, stdout=subprocess.PIPE, stderr=subprocess.PIPE, timeout=120)
+        after = world.snapshot(dst)
+        stats["leftover_worlds"] = stats.get("leftover_worlds", 0) + 1
+        tag = {"variant": "leftover-%d" % i, "flags": fl, "seed": seed, "planted": planted}
+        if p.returncode != 0:
+            viol.append(dict(tag, why="the run over leftover working files failed: rc=%s %s" % (p.returncode, p.stderr.decode("utf-8", "replace")[-200:])))
+        for rel, e in ssnap.items():
+            if e["kind"] == "f" and (rel not in after or after[rel].get("sha") != e["sha"]):
+                viol.append(dict(tag, path=rel, why="after an uninterrupted run over a leftover working file of an older version the destination file is not the source's (stale bytes of the leftover?)"))
+        for rel in planted:
+            if rel in after:
+                viol.append(dict(tag, path=rel, why="a working file is left behind after an uninterrupted run"))
+        shutil.rmtree(base, ignore_errors=True)
+    return viol
+
+
 def run(tier, seed):
     res = vlib.Result(PID, tier, seed)
     pr = proof_phase(res, PID)
@@ -455,6 +494,7 @@ def run(tier, seed):
             for x in vv:
                 x["seed"] = seed
             viol += vv; diffs += dd
+        left_viol = leftover_worlds(sc, seed, tier, stats)
         # with several workers the attribution of logged calls to executed prefixes is a heuristic (a thread may have logged a
         # call it never got to execute): a difference seen there counts only if it shows up again at the same kill point
         softv = [x for x in viol if x.get("flags", {}).get("j", 1) > 1 and "k" in x and "not being written" in x.get("why", "")]
@@ -504,6 +544,7 @@ def run(tier, seed):
                                                  "the abstraction of observed calls to Crash.cstep (py/props/c09.py abstract): which data call completes the file is taken to be the last one before the rename / utimensat",
                                                  "hook H1 (SY_VERIF_DELTA_THRESHOLD) scales the 10 MiB gate to 96 KiB"]
     res.notes.append("Partial: crash = process death (kill -9); durability across power loss (no fsync in sy) is outside the model. Directory creation/deletion boundaries are checked on the runs only (old-or-final and convergence), not modelled in Crash.v.")
+    viol = left_viol + viol
     for v in viol[:3]:
         res.violation("crash", v)
     if not viol and (diffs or pr["broken"]):
